@@ -140,6 +140,7 @@ type vpWorld struct {
 	coParked   bool // the second activity is parked on a key lock
 
 	multiIPKeys map[string]bool // keys of pods that were bound with two or more IPs
+	allowRestart bool           // scenario option: housekeeping may restart galaxy-ipam
 
 	lateEventActive bool // an event of an earlier incarnation is being handled while a same-named live pod with another UID exists
 	lateEventSeen   bool // ... has happened at some point of this history
